@@ -158,3 +158,36 @@ def check_C09(fx, eng, rep, tier):
         if f.get('_feasible_paths') is not None:
             rep.saw_fn(f)
     rep.floor('C09 obligations', n, 30)
+
+
+def check_C11(fx, eng, rep, tier):
+    rep.explanation = ('Arrival of an MCS request is its single RMW on the lock word. X/SIX arrivals are unconditional exchanges that install the own node with '
+                       'the own mode flag (FIFO.TAIL, MCS.PUB); the own node inherits exactly the flags of the word it replaced (MCS.INH); the request returns '
+                       'only after an acquire read certified those flags cleared (MCS.WAIT); a flag is cleared only by its owner\'s release, exactly once, on the '
+                       'lock word while still tail or on the successor\'s node (MCS.CLR); shared arrivals join the current tail word by a certified CAS. These are '
+                       'the premises of the hand argument that no later conflicting arrival is granted first.')
+    rep.rule_text = 'C11.TAIL, MCS.PUB, MCS.INH, MCS.LINK, MCS.WAIT, MCS.CLR, MCS.DRAIN per function and path class'
+    rep.trusted = ['clang 14 AST/CFG', 'field abstraction of lock and node words', 'hand argument DESIGN.md C11', 'addresses fit in 47 bits']
+    _locks(fx, eng, rep, ['MCSLock'], ['C11.', 'MCS.PUB', 'MCS.INH', 'MCS.LINK', 'MCS.WAIT', 'MCS.CLR', 'MCS.DRAIN'], {'MCSLock': 20})
+
+
+def check_C12(fx, eng, rep, tier):
+    rep.explanation = ('Queue-node life cycle as typestate: a fresh node (new / thread-local cache) is either published by the arrival write and stored in the '
+                       'returned guard, or handed back to the cache (NODE.ACQ); each release path recycles the group node exactly when the abstract word it '
+                       'certified shows nothing but the releaser\'s own contribution (NODE.REL, both directions: leak and premature recycle); no access to a '
+                       'node after it was recycled on the same path, nodes are never deleted directly, the cache is a thread_local unique_ptr (NODE.UAR, TLS).')
+    rep.rule_text = 'C12.ACQ / C12.REL / C12.UAR / C12.TLS per function and path'
+    rep.trusted = ['clang 14 AST/CFG', 'field abstraction', 'protocol invariant: a member counted in the successor word keeps the successor from finishing (C01)']
+    rep.assumptions = ['not decided: stale pointers held by another thread (protocol-level argument)']
+    _locks(fx, eng, rep, ['MCSLock'], ['C12.'], {'MCSLock': 12})
+
+
+def check_C02(fx, eng, rep, tier):
+    rep.explanation = ('Necessary conditions of progress, each structural: LIVE.SPIN (every spin / wait loop re-reads the atomic word its exit tests; the spin '
+                       'helper returns iff its procedure returned true; an iteration that does not exit writes nothing), LIVE.HANDOFF (every release path performs '
+                       'exactly one flag-clearing write), LIVE.FREE (release deltas are the exact inverses of the acquire deltas, C01.REL / MCS.CLR; conversions return '
+                       'owning guards, C07.CONV), LIVE.PUBSTORE (no plain store to a published MCS node). Eventual grant under every fair schedule as a whole is not decided.')
+    rep.rule_text = 'C02.SPIN / C02.SPINFN / C02.HANDOFF / C02.PUBSTORE + C01.REL / MCS.CLR / C07.CONV'
+    rep.trusted = ['clang 14 AST/CFG', 'field abstraction']
+    rep.assumptions = ['liveness itself (fair schedules) is not decided; these are necessary conditions']
+    _locks(fx, eng, rep, ALL_LOCKS, ['C02.', 'C01.REL', 'MCS.CLR', 'C07.CONV', 'C01.ROWS'], {'PessimisticLock': 10, 'OptimisticLock': 14, 'MCSLock': 14})
